@@ -336,7 +336,7 @@ def run(ctx):
                 new = ctx.violation(key, FLUSH_WHAT if key == FLUSH_KEY else
                                     'live connection (%s) under schedule %s differs from the unconstrained run in %s: %s'
                                     % (r['name'], cls, diffs[0][0], repr(diffs[0][2:])[:300]),
-                                    {'kind': 'sys', 'scenario': r['name'], 'sched': s, 'seed_task': None,
+                                    {'kind': 'sys', 'scenario': r['name'], 'sched': s, 'seed_task': r.get('seed'),
                                      'diffs': repr(diffs)[:4000],
                                      'how': './check C14 --replay <this file> reruns the scenario under the schedule'})
                 if key != FLUSH_KEY:
@@ -421,7 +421,8 @@ def replay(ctx, path):
         import c14_sys as S
         scn = dict(S.scenario_list())[r['scenario']]
         bad = 0
-        for seed in range(3):
+        seeds = [r['seed_task']] if r.get('seed_task') is not None else [0, 1, 2]
+        for seed in seeds:
             w = S.worker((scn, [r['sched']], seed))
             for s, diffs, outcome, rf in w.get('results', []):
                 print('seed', seed, 'schedule', S.sched_class(s), 'differences:', diffs[:3] if diffs else 'none')
